@@ -461,10 +461,12 @@ class TermCanvas(Canvas):
                     last_line = last_line[: self.width]
 
                 self.term.insert(0, last_line)
+                y += 1  # the cursor stays on its line
         elif height < self.height:
             # shrink
             for _y in range(height, self.height):
                 self.scrollback_buffer.append(self.term.pop(0))
+                y -= 1  # the cursor stays on its line
 
         self.height = height
 
